@@ -287,13 +287,13 @@ RECURSIVE GDeliver(_, _, _)
 GDeliver(ls, i, acc) ==
   IF i > Len(ls) THEN acc
   ELSE LET l == ls[i] IN
-       IF l \in SeqToSet(acc.r)
-       THEN GDeliver(ls, i + 1, [acc EXCEPT !.must = @ \cup {l}, !.r = GBehave(acc.r, l)])
-       ELSE \* removed by a peer before its turn: the statement allows either
-            GDeliver(ls, i + 1, [acc EXCEPT !.may = @ \cup {l}])
+       \* "to every listener registered for that event name at that moment": a listener that a peer removes
+       \* before its turn in this delivery was registered when the event arrived, so it still receives it
+       \* (read more loosely until seeded change C02-r7; `may` stays empty now)
+       GDeliver(ls, i + 1, [acc EXCEPT !.must = @ \cup {l}, !.r = GBehave(acc.r, l)])
 
 ----------------------------------------------------------------------------
-Choices == IF Loose THEN [loneOK : BOOLEAN, cbFinal : BOOLEAN, cb5 : BOOLEAN, peer : BOOLEAN]
+Choices == IF Loose THEN [loneOK : BOOLEAN, cbFinal : BOOLEAN, cb5 : BOOLEAN, peer : {TRUE}]
            ELSE {[loneOK |-> TRUE, cbFinal |-> TRUE, cb5 |-> FALSE, peer |-> TRUE]}
 
 None == [t |-> "none", cls |-> "", name |-> "", toks |-> <<>>]
